@@ -202,9 +202,11 @@ class Ctx:
         raw = outfile + ".raw"
         r = self.tlc(module, cfg, stdout_to=raw, **kw)
         n = 0
+        seen = set()
         with open(raw, errors="replace") as fh, open(outfile, "w") as out:
             for line in fh:
                 if line.startswith('<<"CASE", "'):
+                    seen.add(hash(line))
                     s = line.rstrip("\n")
                     s = s[len('<<"CASE", "'):]
                     if s.endswith('">>'):
@@ -214,13 +216,16 @@ class Ctx:
                     n += 1
         os.unlink(raw)
         self.cov["tlc_runs"].append({"role": "R2", "module": module, "cfg": cfg, "generated": r.generated,
-                                     "distinct": r.distinct, "cases": n, "ok": r.ok, "violated": r.violated,
+                                     "distinct": r.distinct, "cases": n, "distinct_cases": len(seen), "ok": r.ok, "violated": r.violated,
                                      "wall_s": round(r.wall, 1), "label": label or ""})
         if r.error:
             raise MachineryError("TLC generate %s/%s: %s\n%s" % (module, cfg, r.error, r.output[-3000:]))
         if r.violated:
             raise MachineryError("generator %s/%s: spec-level invariant %s violated (I-level disagrees with P-level)\n%s"
                                  % (module, cfg, r.violated, r.output[-4000:]))
+        if kw.get("simulate") and n >= 500 and len(seen) * 50 < n:
+            # round 6: a seeded simulation whose random choice was a cached constant produced one filter 40 000 times
+            raise MachineryError("generator %s/%s is degenerate: %d cases, %d distinct" % (module, cfg, n, len(seen)))
         if n == 0:
             raise MachineryError("generator %s/%s produced no cases\n%s" % (module, cfg, r.output[-2000:]))
         self.cov["states"] += r.distinct
